@@ -357,3 +357,12 @@ package sender
 //@   preserves[C15] [id-maps-hold-nonzero-ids] idKeysNonzero(s.uidMap) && idKeysNonzero(s.gidMap)
 //@ func (*sender.scopedWalker).walk
 //@   preserves[C15] [id-maps-hold-nonzero-ids] idKeysNonzero(s.uidMap) && idKeysNonzero(s.gidMap)
+
+// ---------------------------------------------------------------- C14: the filter list on the wire
+// (int32 n != 0, n bytes)* int32 0; filterListEnd(r, p) is the position just
+// behind the list that starts at p.
+//@ spec rec func filterListEnd(r: int, p: int): int = ite(wrap32s(le32At(r, p)) == 0, p + 4, filterListEnd(r, p + 4 + wrap32s(le32At(r, p))))
+//@ func sender.RecvFilterList
+//@   modifies ghost.rpos
+//@   ensures[C14] [one-filter-list-consumed] err == nil ==> select(ghost.rpos, data(c.Reader)) == filterListEnd(data(c.Reader), old(select(ghost.rpos, data(c.Reader))))
+//@   loop[C14] 0: invariant [list-end-unchanged] filterListEnd(data(c.Reader), select(ghost.rpos, data(c.Reader))) == filterListEnd(data(c.Reader), old(select(ghost.rpos, data(c.Reader))))
